@@ -39,6 +39,7 @@ type report struct {
 	validated    int
 	witnessTried int
 	inconclusive int
+	unsupported  int
 	samples      []interface{}
 }
 
@@ -220,6 +221,11 @@ func (r *report) evaluate(hs []*harnessInfo, stats []*interp.HarnessStats, rb *r
 		}
 		// inconclusive paths
 		for m, n := range st.Msgs {
+			if strings.HasPrefix(m, "unsupported:") || strings.HasPrefix(m, "init:") {
+				// the code now does something the engine cannot execute: the property was NOT
+				// decided for those paths; that is a failure of the check, not a pass
+				r.unsupported += n
+			}
 			r.inconclusive += n
 			r.notes = append(r.notes, fmt.Sprintf("INCONCLUSIVE %s: %s (x%d)", h.fn.Name(), m, n))
 		}
@@ -277,6 +283,10 @@ func (r *report) evaluate(hs []*harnessInfo, stats []*interp.HarnessStats, rb *r
 		return 1
 	}
 	if len(r.vacuous) > 0 || len(r.mismatches) > 0 {
+		return 2
+	}
+	if r.unsupported > 0 {
+		fmt.Printf("UNDECIDED property=%s: %d path(s) ended in an operation the engine cannot execute; the property is not decided for them\n", r.prop, r.unsupported)
 		return 2
 	}
 	return 0
